@@ -872,7 +872,7 @@ class Processor:
 
         # NodeCoords cannot be directly evaluated as data, so pull out their
         # wrapped data for evaluation.
-        if isinstance(data, NodeCoords):
+        while isinstance(data, NodeCoords):
             ancestry = data.ancestry
             translated_path = YAMLPath(data.path)
             parent = data.parent
